@@ -16,7 +16,7 @@ pub fn prop() -> Prop {
     Prop {
         id: "C16",
         level: "model_checking",
-        rule: "(a) histories: every ordered sequence of <= 2 (quick) / <= 3 (thorough) programs of a 48-program batch chosen to collide (incl. generated big programs: 300 globals, 300 heap globals, 600 constants, an error with 60 frames active, and programs that read a variable they never wrote) (same literals, names and strings in different positions, values equal under == but not identical such as 0.0 and -0.0 or 1 and 1.0, heap allocation everywhere, builtin and nested-call errors, output), evaluated one after the other on one thread of one process: every evaluation must give the outcome the program gives alone in a FRESH process; (a'') near-identical long texts: self-printing programs of 16 length classes from 100 bytes to 128 KiB, each evaluated after a text of the same length that differs in one byte, at 64 consecutive middle positions and at both ends; (b) schedules: for every unordered pair of a 10-program subset, two evaluations on real threads under a controlled scheduler that yields before every VM instruction and between the phases of eval; EVERY schedule with at most p preemptions is run to completion and each thread's outcome must equal its solo outcome; (c) configurations: the whole check, and a table of operator and arithmetic programs across the overflow boundaries, runs under two builds of the interpreter (release-like; debug assertions + overflow checks) and the (program, outcome) tables must be identical, with the solo outcomes always taken from the release build. States = schedules + histories completed; transitions = scheduling points executed",
+        rule: "(a) histories: every ordered sequence of <= 2 (quick) / <= 3 (thorough) programs of a 48-program batch chosen to collide (incl. generated big programs: 300 globals, 300 heap globals, 600 constants, an error with 60 frames active, and programs that read a variable they never wrote) (same literals, names and strings in different positions, values equal under == but not identical such as 0.0 and -0.0 or 1 and 1.0, heap allocation everywhere, builtin and nested-call errors, output), evaluated one after the other on one thread of one process: every evaluation must give the outcome the program gives alone in a FRESH process; (a'') near-identical long texts: self-printing programs of 16 length classes from 100 bytes to 128 KiB, each evaluated after a text of the same length that differs in one byte, at 64 consecutive middle positions and at both ends; (a''') the same with programs that MEASURE a long non-ASCII string (length, three characters): consecutive programs have the same size in bytes but a different number of characters; (b) schedules: for every unordered pair of a 10-program subset, two evaluations on real threads under a controlled scheduler that yields before every VM instruction and between the phases of eval; EVERY schedule with at most p preemptions is run to completion and each thread's outcome must equal its solo outcome; (c) configurations: the whole check, and a table of operator and arithmetic programs across the overflow boundaries, runs under two builds of the interpreter (release-like; debug assertions + overflow checks) and the (program, outcome) tables must be identical, with the solo outcomes always taken from the release build. States = schedules + histories completed; transitions = scheduling points executed",
         assumptions: &[
             "(d) the executable's symbol table is scanned for writable statics / thread-locals of the interpreter crate; if there are none the instruction-granularity schedules are sufficient; if some appear, a free-running (sampling, labelled) complement on real parallel threads is added, because the exhaustive argument no longer covers races inside one instruction",
             "instruction granularity: accesses inside one VM instruction are not interleaved by this scheduler; unsynchronised shared memory touched within a single instruction is outside its reach (the crate has no static, thread_local, lock or atomic: grep-verified in DESIGN 8)",
@@ -274,6 +274,39 @@ fn table_programs(tier: Tier, seed: u64) -> Vec<Vec<Stmt>> {
 
 /// Self-printing programs of one length class evaluated one after the other, consecutive texts differing in
 /// one byte (see (a'') in the rule).
+/// Near-identical texts that measure a string: the program holds a long non-ASCII string and returns its
+/// length in characters and three of its characters; consecutive programs have the SAME size in bytes (so the
+/// second one's string lands where the first one's was) but a different number of characters (one two-byte
+/// character replaced by two one-byte characters, at 12 positions). The expected value is known in closed form.
+fn near_identical_measured(sh: &mut Shard, profile: &str, only_len: Option<usize>) {
+    for chars in [20usize, 100, 127, 128, 129, 150, 300, 1000, 5000, 40_000] {
+        if only_len.map(|l| l != chars).unwrap_or(false) {
+            continue;
+        }
+        let mut variants: Vec<Option<usize>> = vec![None];
+        variants.extend([0, 1, 2, chars / 3, chars / 2, chars / 2 + 1, chars - 3, chars - 2, chars - 1, 7, 64, 65].iter().filter(|p| **p < chars).map(|p| Some(*p)));
+        variants.push(None);
+        for split in variants {
+            let body: String = (0..chars).map(|i| if Some(i) == split { "ab".to_string() } else { "é".to_string() }).collect();
+            let cs: Vec<char> = body.chars().collect();
+            let n = cs.len();
+            let text = format!("stel s = \"{body}\"; [lengte(s), s[0], s[{}], s[-1]]", n / 2);
+            let o = sched::solo(&text, 2_000_000);
+            sh.count("transitions");
+            let want = format!("[{n},\"{}\",\"{}\",\"{}\"]", cs[0], cs[n / 2], cs[n - 1]);
+            let ok = matches!(&o.end, crate::outcome::ImplEnd::Value(v) if *v == want);
+            if !ok {
+                sh.violation(
+                    "history",
+                    json!({"profile": profile, "near_identical_measured": {"length": chars, "two_ascii_characters_at": split}, "history": ["(the same program with the two ASCII characters elsewhere, or without them)", format!("stel s = \"…{} characters…\"; [lengte(s), s[0], s[{}], s[-1]]", n, n / 2)]}),
+                    format!("a program measuring its own {n}-character string gave {}, expected {want}", impl_end_text(&o.end)),
+                );
+                return;
+            }
+        }
+    }
+}
+
 fn near_identical(sh: &mut Shard, profile: &str, only_len: Option<usize>) {
         'near: for len in [100usize, 500, 1000, 1030, 1100, 2050, 2100, 3000, 4100, 5000, 8200, 10_000, 16_400, 33_000, 66_000, 131_000] {
             if only_len.map(|l| l != len).unwrap_or(false) {
@@ -399,6 +432,7 @@ fn run(sh: &mut Shard) {
         sh.begin(&|| "near-identical long texts".to_string());
         sh.count(&format!("near-identical:{profile}"));
         near_identical(sh, profile, None);
+        near_identical_measured(sh, profile, None);
     }
     // (a') one long history: thousands of programs that each bring fresh names, numbers and strings (whatever
     // table, cache or counter a change might keep between evaluations gets filled and wrapped), the batch
@@ -556,6 +590,10 @@ fn run(sh: &mut Shard) {
 
 fn replay(sh: &mut Shard, case: &Value) {
     sh.mine();
+    if let Some(len) = case["near_identical_measured"]["length"].as_u64() {
+        near_identical_measured(sh, if cfg!(debug_assertions) { "dev" } else { "rel" }, Some(len as usize));
+        return;
+    }
     if let Some(len) = case["near_identical"]["length"].as_u64() {
         near_identical(sh, if cfg!(debug_assertions) { "dev" } else { "rel" }, Some(len as usize));
         return;
